@@ -336,6 +336,7 @@ func evalOpenWriter(cs owCase) (v histVerdict) {
 		}
 	}
 	v.writes = t.nWrites
+	v.wire = t.wire
 	return v
 }
 
@@ -343,6 +344,9 @@ func judgeOpenWriter(c *hl.Ctx, cs owCase) {
 	v := evalOpenWriter(cs)
 	c.Eval()
 	c.Add("open_writer_runs", 1)
+	if v.key == "" {
+		deliveryOfHistory(c, &v, cs.Cfg, cs.id())
+	}
 	if v.key != "" {
 		c.Violation(v.key, v.what, cs)
 		return
